@@ -63,6 +63,27 @@ CHECKS = {
                     "or a connection that stopped making progress because of others."),
         level_note="Schedules are sampled, not enumerated: a violation needing one specific preemption can be missed.",
     ),
+    "C14": dict(
+        pkg="c14",
+        level="fault_enumeration",
+        technique="property-based testing (rapid) of connection histories and session-ending faults with a differential resource oracle (goroutines, descriptors, idle CPU)",
+        rule=("case = (carrier tcp/tcp+tls/http/stdio, StartTLS?, closer app/target/both, overlap 1/2/5, payload size, session ending "
+              "none/client-shutdown/server-shutdown/carrier cut RST/carrier cut FIN/garbage injected after the handshake/"
+              "(thorough) silence until the multiplexer keep-alive fires). After a warm-up the idle footprint is measured; 20 and "
+              "then 100 more logical connections are run; oracle: goroutines and descriptors after 120 connections exceed neither "
+              "the level after 20 nor the idle level by more than 3 (6), idle CPU <= 25% of a core, after the session ending the "
+              "footprint returns to the idle level and CPU stays idle, after shutdown to the pre-pair level. non-trivial = target "
+              "closes first or an abnormal/explicit session ending; distinct = distinct history tuple"),
+        assumptions=["whole-process goroutine/descriptor counts are used; harness goroutines are quiescent at measuring points",
+                     "stdio endpoints are not judged after shutdown (they live as long as the process' standard streams)"],
+        quick=dict(run=".", checks=14, timeout=1200),
+        thorough=dict(run=".", checks=60, timeout=3400, shards=4),
+        design_ref="DESIGN.md 2/C14",
+        level_text=("Generated connection histories and injected session-ending faults on a real pair, judged by differential resource "
+                    "growth. A green run means no generated history left goroutines/descriptors growing with the number of past "
+                    "connections or a dead session being serviced in a busy loop."),
+        level_note="Quiescence is observed with bounded waits (<=10 s); counts are process-wide.",
+    ),
     "C19": dict(
         pkg="c19",
         level="exploration",
